@@ -68,6 +68,11 @@ def leading_underscore_label(case):
                for s in case_samples(case) for k in all_keys(s))
 
 
+def digit_word_collision(case):
+    """one object holds a digit-first key and another key that equals its spelled-out form ('1day' / 'one_day')"""
+    return any(gen.digit_word_collision(list(o)) for s in case_samples(case) for o in objects(s))
+
+
 def reserved_names(case):
     return any(gen.key_status(k, allow_digit_first=True) == "framework-reserved-field-names"
                for s in case_samples(case) for k in all_keys(s))
@@ -167,6 +172,7 @@ def legacy_list_order(case):
 
 PREDICATES = dict(
     folded_equal_keys=folded_equal_keys,
+    digit_word_collision=digit_word_collision,
     empty_label=empty_label,
     leading_underscore_label=leading_underscore_label,
     reserved_names=reserved_names,
